@@ -409,6 +409,9 @@ Third:
 		}
 	case '\n':
 		l.emit('\n')
+		if l.heredoc.exists() && !l.readHeredocs() {
+			return nil
+		}
 		if !l.linebreak() {
 			return nil
 		}
@@ -435,6 +438,9 @@ In:
 			l.emit(WORD)
 		case ';', '\n':
 			l.emit(tok)
+			if tok == '\n' && l.heredoc.exists() && !l.readHeredocs() {
+				return nil
+			}
 			if !l.linebreak() {
 				return nil
 			}
@@ -730,6 +736,15 @@ Redir:
 }
 
 func (l *lexer) lexHeredoc() action {
+	if !l.readHeredocs() {
+		return nil
+	}
+	return l.lexToken('\n')
+}
+
+// readHeredocs reads the bodies of the pending here-documents. It
+// returns false when lexing cannot continue.
+func (l *lexer) readHeredocs() bool {
 	find := func(r *ast.Redir, delim string) bool {
 		for i := len(l.word) - 1; i >= 0; i-- {
 			if l.word[i].Pos().Col() == 1 {
@@ -771,7 +786,7 @@ func (l *lexer) lexHeredoc() action {
 			if err != nil {
 				if !l.heredoc.exists() {
 					if l.lit(); find(h, delim) {
-						return nil
+						return false
 					}
 				}
 				goto Error
@@ -814,14 +829,14 @@ func (l *lexer) lexHeredoc() action {
 					l.lit()
 					l.mark(-1)
 					if !l.scanParamExp() {
-						return nil
+						return false
 					}
 				case '`':
 					// command substitution
 					l.lit()
 					l.mark(-1)
 					if !l.scanCmdSubst('`') {
-						return nil
+						return false
 					}
 				default:
 					l.b.WriteRune(r)
@@ -835,10 +850,10 @@ func (l *lexer) lexHeredoc() action {
 			if err == io.EOF {
 				l.error(h.OpPos, "syntax error: here-document delimited by EOF")
 			}
-			return nil
+			return false
 		}
 	}
-	return l.lexToken('\n')
+	return true
 }
 
 func (l *lexer) scanArithExpr(pos ast.Pos) int {
@@ -1609,6 +1624,9 @@ func (l *lexer) linebreak() bool {
 			hash = false
 			l.comment()
 			l.mark(0)
+			if l.heredoc.exists() && !l.readHeredocs() {
+				return false
+			}
 		case '#':
 			// comment
 			hash = true
